@@ -925,3 +925,106 @@ Proof.
   split; [vm_compute; reflexivity|]. split; [apply uniq_simple, uniq_b_sound; reflexivity|].
   split; [eexists; vm_compute; reflexivity | vm_compute; reflexivity].
 Qed.
+
+(** ---- "model_ok" for whole scripts (Proofs/C14_ScriptOk.v).  [model_steps ms ops] replays the model
+    as [agree_steps] does and records after every step the model's own dumps of all live models and
+    [parameter_names] of each.  That record passes [ok_steps]: the edited model changed as stated
+    ([op_ok]), no other live model changed, a copy / a reloaded model equals its source and the
+    number of live models is right, [parameter_names] is as [params_ok] asks -- for all scripts.
+    PARTIAL: the clause "every live model stays consistent" is the decidable hypothesis
+    [consistent_along] (evaluated on the model's own run, up to the first raising / edge-hazard
+    step); missing is that [step_model] preserves the [nodup_params] and [acyclic_b] conjuncts of
+    [consistent_b] ([acyclic_b] is phrased through [topo_order]).  [no_become_hazard]: no become
+    onto the node itself or a descendant (strict variant only). *)
+From Elfi Require Import Proofs.C14_ScriptOk.
+
+Theorem C14_model_steps_agree : forall ops ms, agree_steps ms (model_steps ms ops) = true.
+Proof. exact model_steps_agree. Qed.
+Print Assumptions C14_model_steps_agree.
+
+Theorem C14_model_script_ok_partial :
+  forall ops,
+    consistent_along true [empty_net] ops = true -> no_become_hazard true [empty_net] ops = true ->
+    ok_steps true [empty_net] (model_steps [empty_net] ops) = true.
+Proof. exact model_script_ok_partial. Qed.
+Print Assumptions C14_model_script_ok_partial.
+
+(** from any consistent, one-edge-per-pair list of live models; both variants *)
+Theorem C14_model_steps_ok :
+  forall strict ops ms,
+    forallb consistent_b ms = true -> Forall (fun m => uniq (s_edges m)) ms ->
+    consistent_along strict ms ops = true -> no_become_hazard strict ms ops = true ->
+    ok_steps strict ms (model_steps ms ops) = true.
+Proof. exact model_steps_ok. Qed.
+Print Assumptions C14_model_steps_ok.
+
+(** the non-strict predicate stops at a become hazard: no hypothesis on become *)
+Theorem C14_model_script_ok_nonstrict_partial :
+  forall ops,
+    consistent_along false [empty_net] ops = true ->
+    ok_steps false [empty_net] (model_steps [empty_net] ops) = true.
+Proof. exact model_script_ok_nonstrict_partial. Qed.
+Print Assumptions C14_model_script_ok_nonstrict_partial.
+
+(** the case record of the model's own run agrees with the model and passes [ok_strict] and [ok] *)
+Theorem C14_model_case_ok_strict_partial :
+  forall ops,
+    consistent_along true [empty_net] ops = true -> no_become_hazard true [empty_net] ops = true ->
+    Edit.agree (model_case ops) = true /\ Edit.ok_strict (model_case ops) = true /\ Edit.ok (model_case ops) = true.
+Proof. exact model_case_ok_strict_partial. Qed.
+Print Assumptions C14_model_case_ok_strict_partial.
+
+(** the clauses, one step of the model at a time *)
+Theorem C14_step_clause_op_ok :
+  forall ms o ms',
+    step ms o = Ok ms' ->
+    forallb consistent_b ms = true -> Forall (fun m => uniq (s_edges m)) ms ->
+    become_hazard o (nth (handle_of o) ms empty_net) = false ->
+    match nth_error ms (handle_of o), nth_error ms' (handle_of o) with
+    | Some b, Some a => op_ok o b a
+    | _, _ => false
+    end = true.
+Proof. exact step_clause_op_ok. Qed.
+Print Assumptions C14_step_clause_op_ok.
+
+Theorem C14_step_clause_others :
+  forall ms o ms', step ms o = Ok ms' -> others_fix (handle_of o) 0 ms ms' = true.
+Proof. exact step_clause_others. Qed.
+Print Assumptions C14_step_clause_others.
+
+Theorem C14_step_clause_copy :
+  forall ms o ms',
+    step ms o = Ok ms' ->
+    match o with
+    | ECopy _ | ESaveLoad _ =>
+        match nth_error ms (handle_of o), nth_error ms' (List.length ms) with
+        | Some b, Some a => snet_eqb b a && Nat.eqb (List.length ms') (S (List.length ms))
+        | _, _ => false
+        end
+    | _ => Nat.eqb (List.length ms') (List.length ms)
+    end = true.
+Proof. exact step_clause_copy. Qed.
+Print Assumptions C14_step_clause_copy.
+
+Theorem C14_params_ok_self : forall ms, all2 params_ok ms (map parameter_names ms) = true.
+Proof. exact params_ok_self. Qed.
+Print Assumptions C14_params_ok_self.
+
+(** a 6-step script over two live models: three creations, a copy, a become on the original, a
+    remove on the copy; every step succeeds, the hypotheses hold by computation, and the model's own
+    record (dumps and parameter_names per live model) passes the strict predicate *)
+Example C14_model_script_ok_nonvacuous :
+  consistent_along true [empty_net] so_script = true
+  /\ no_become_hazard true [empty_net] so_script = true
+  /\ List.length (model_steps [empty_net] so_script) = 6
+  /\ forallb (fun s => match so_after s with Some _ => true | None => false end)
+             (model_steps [empty_net] so_script) = true
+  /\ map so_params (model_steps [empty_net] so_script)
+     = [[["t1"]]; [["t1"; "t2"]]; [["t1"; "t2"]]; [["t1"; "t2"]; ["t1"; "t2"]];
+        [["t1"]; ["t1"; "t2"]]; [["t1"]; ["t1"; "t2"]]]
+  /\ match run [empty_net] so_script with
+     | Ok [m0; m1] => map fst (s_nodes m0) = ["s"; "t1"] /\ map fst (s_nodes m1) = ["t1"; "t2"]
+     | _ => False
+     end
+  /\ ok_steps true [empty_net] (model_steps [empty_net] so_script) = true.
+Proof. exact model_script_ok_example. Qed.
